@@ -179,6 +179,12 @@ func fragDecode(r io.Reader, chk bool, hasSize bool, size int, full bool) string
 			}
 		}
 	}
+	if status == "end" {
+		// Next() returned false: the decoder keeps the reason as its sticky error; a further Decode() returns it
+		if _, err := dec.Decode(); err != nil {
+			fmt.Fprintf(&sb, " after=%s", fragErrClass(err))
+		}
+	}
 	return status + sb.String()
 }
 
